@@ -279,18 +279,20 @@ pub fn finish(property: &str, tier: Tier, started: Instant, mut rep: Report) -> 
         rep.exhaustive,
         wall
     );
-    if !rep.machinery_errors.is_empty() {
-        for e in &rep.machinery_errors {
-            eprintln!("MACHINERY: {e}");
-        }
-        return 2;
+    for e in &rep.machinery_errors {
+        eprintln!("MACHINERY: {e}");
     }
+    // a confirmed violation (reproduced on two replays) is a verdict even if
+    // some other part of the run had a machinery problem
     if !new_violations.is_empty() {
         for (v, path) in &new_violations {
             println!("  [{}] {}", v.key, v.message);
             println!("VIOLATION property={property} replay={}", path.display());
         }
         return 1;
+    }
+    if !rep.machinery_errors.is_empty() {
+        return 2;
     }
     0
 }
